@@ -15,7 +15,8 @@ Definition to_cfg (x : sx) : cfg :=
 Definition to_outcome (x : sx) : outcome :=
   match to_Z (nthx 0 x) with 0 => ORet | 1 => ORaise (to_Z (nthx 1 x)) (to_Z (nthx 2 x)) | _ => OEscape end.
 Definition to_prog (x : sx) : prog :=
-  mkprog (to_pairs (nthx 0 x)) (to_outcome (nthx 1 x)) (to_bool (nthx 2 x)) (to_Z (nthx 3 x)) (to_Z (nthx 4 x)) (to_Z (nthx 5 x)).
+  mkprog (to_pairs (nthx 0 x)) (to_outcome (nthx 1 x)) (to_bool (nthx 2 x)) (to_Z (nthx 3 x)) (to_Z (nthx 4 x)) (to_Z (nthx 5 x))
+         (map (fun e => (to_Z (nthx 0 e), to_kw (nthx 1 e))) (to_list (nthx 6 x))).
 Definition to_ev (x : sx) : ev :=
   match to_Z (nthx 0 x) with
   | 0 => Wk
@@ -30,7 +31,9 @@ Definition of_rstatus (s : rstatus) : sx :=
   I (match s with Waiting => 0 | Running => 1 | Success => 2 | Error => 3 | Canceled => 4 end).
 Definition of_smsg (m : smsg) : sx :=
   match m with MNone => L [] | MCancel => L [I 1] | MErr t x => L [I 2; I t; I x] end.
-Definition of_res (r : res) : sx := L [I (shape r); I (payload r); of_kw (rargs r); of_nat_sx (nconv r); of_kw (cargs r)].
+Definition of_entry (e : entry) : sx := L [I (epay e); of_kw (eiter e); of_nat_sx (enconv e); of_kw (ecargs e)].
+Definition of_res (r : res) : sx :=
+  L [I (shape r); I (payload r); of_kw (rargs r); of_nat_sx (nconv r); of_kw (cargs r); L (map of_entry (entries r))].
 Definition of_ores (o : option res) : sx := match o with Some r => L [of_res r] | None => L [] end.
 Definition of_gres (g : gres) : sx :=
   match g with
